@@ -38,7 +38,7 @@ type Loc struct {
 
 func (l Loc) Key() string {
 	if l.Root == "a" || l.Root == "o" {
-		return l.Root + ":" + l.Flat
+		return l.Root + ":" + l.Flat + "@" + l.Via
 	}
 	return l.Root + l.Path
 }
@@ -276,7 +276,7 @@ func (a *effAnalysis) read(l Loc, pos token.Pos) {
 	if l.Root == "" || (l.Root == "a" && l.Flat == "") {
 		return
 	}
-	if l.Pos == token.NoPos {
+	if l.Via == "" {
 		l.Pos = pos
 		l.Via = fname(a.fn)
 	}
@@ -290,7 +290,7 @@ func (a *effAnalysis) write(l Loc, pos token.Pos) {
 	if l.Root == "" || (l.Root == "a" && l.Flat == "") {
 		return
 	}
-	if l.Pos == token.NoPos {
+	if l.Via == "" {
 		l.Pos = pos
 		l.Via = fname(a.fn)
 	}
